@@ -973,6 +973,8 @@ def build_ref(fd, rsp):
             return R.RConst(rsp, h.value(np.zeros(n)))
         return R.RArgScale(h, vec(s, n) if isinstance(s, dict) else s)
     if t == 'leftscale':
+        if float(fd['s']) == 0.0:
+            return R.RConst(rsp, 0.0)     # 0 * f is the zero functional
         return R.RLeftScale(h, fd['s'])
     if t == 'quadpert':
         return R.RQuadPert(h, fd['a'], vec(fd.get('u'), n), fd.get('c', 0.0))
@@ -1019,6 +1021,8 @@ def rule_name(fd):
             return 'argscale_el'
         if float(fd['s']) == 0.0:
             return 'argscale_zero'
+    if name == 'leftscale' and float(fd['s']) == 0.0:
+        return 'leftscale_zero'
     return name
 
 
